@@ -37,7 +37,7 @@ def hs_len(world, src, dst):
     return 2 + 16 * n
 
 
-def run_recorded(prog, arg, m, t, seed, scheduler=None, max_steps=400000, crash=None, observers=(), **kw):
+def run_recorded(prog, arg, m, t, seed, scheduler=None, max_steps=1500000, crash=None, observers=(), **kw):
     """Run prog on all parties; returns dict(status, results, errors, events, world)."""
     w = World(m, t, seed=seed, **kw)
     w.observers.extend(observers)
